@@ -451,9 +451,12 @@ class Lark(Serialize, Generic[_Return_T]):
 
         # If the user asked to invert the priorities, negate them all here.
         if self.options.priority == 'invert':
+            inverted = set()
             for rule in self.rules:
-                if rule.options.priority is not None:
+                # The alternatives of a rule may share one options object: negate each object only once
+                if rule.options.priority is not None and id(rule.options) not in inverted:
                     rule.options.priority = -rule.options.priority
+                    inverted.add(id(rule.options))
             for term in self.terminals:
                 term.priority = -term.priority
         # Else, if the user asked to disable priorities, strip them from the
